@@ -22,7 +22,7 @@ RULE = (
     "case, two defaults, statements in a message switch, label in a with-block, not on an ordinary bit test, unknown / "
     "recursive macro, too few macro arguments, missing / cyclic import, routine in an imported file); (d) degenerate "
     "files (label-only routines, alias first, routine ids out of order / with gaps / negative, meta-attribute-only files, "
-    "empty text); (e) arbitrary Unicode text and text over an ExplorerScript-like alphabet. Oracle: the call returns or "
+    "empty text); (e) arbitrary Unicode text and text over an ExplorerScript-like alphabet; (f) SsbScript sources behind the is-ssb-script marker line, intact, truncated or with inserted junk (they are handed to the SsbScript compiler). Oracle: the call returns or "
     "raises ParseError / SsbCompilerError / ValueError; class (c) must raise one of them and leave no routine output. "
     "Non-trivial = the input gets past the parser (reaches the compile handlers): classes a, c, d and those of b that "
     "still parse; distinct by content hash. The CLI stage runs python -m explorerscript.cli.compile on a sample of class "
@@ -73,7 +73,11 @@ def strategy(tier):
     inject = st.fixed_dictionaries({"kind": st.just("inject"), "prog": gen_prog.programs(max_stmts=20), "err": st.sampled_from(ERRS), "at": st.integers(0, 10000)})
     degenerate = st.fixed_dictionaries({"kind": st.just("degenerate"), "which": st.integers(0, 11), "n": st.integers(0, 60), "prog": gen_prog.programs(max_stmts=8)})
     text = st.fixed_dictionaries({"kind": st.just("text"), "text": st.one_of(st.text(max_size=60), st.lists(st.sampled_from(ALPHA), max_size=40).map("".join))})
-    return st.one_of(valid, corrupt, corrupt, inject, inject, inject, degenerate, text)
+    from vf.checks import c03
+
+    ssbs = st.fixed_dictionaries({"kind": st.just("ssbs"), "src": c03.ssbs_programs(), "cut": st.one_of(st.none(), st.integers(0, 4000)),
+                                  "junk": st.one_of(st.none(), st.tuples(st.integers(0, 4000), st.sampled_from(ALPHA)).map(list))})
+    return st.one_of(valid, corrupt, corrupt, inject, inject, inject, degenerate, text, ssbs)
 
 
 def corrupt_tokens(r, ops):
@@ -178,6 +182,16 @@ def evaluate(case, stt):
             return fails
         must_raise = True
         stt.count("inject:" + case["err"])
+    elif kind == "ssbs":
+        from vf.checks import c03
+
+        body = c03.ssbs_text(case["src"])
+        if case["cut"] is not None:
+            body = body[: case["cut"] % (len(body) + 1)]
+        if case["junk"] is not None:
+            at = case["junk"][0] % (len(body) + 1)
+            body = body[:at] + case["junk"][1] + body[at:]
+        text = "//?: is-ssb-script: true\n" + body
     elif kind == "degenerate":
         text = degenerate_text(case["which"], case["n"], case["prog"])
         stt.count(f"degenerate:{case['which']}")
